@@ -96,13 +96,24 @@ func decodeFix(fmtName string, data []byte, limit int) (items []gItem, capped, p
 		fixes = append(fixes, fixCase{rec, back, werr, wp || p})
 	}
 	items = []gItem{}
+	type held struct {
+		it    gItem
+		write func(buf *bytes.Buffer) error
+	}
+	var later []held // every other record is written only after the iteration is over: what the consumer holds must still be the record it was given
+	nrec := 0
 	visit := func(it gItem, write func(buf *bytes.Buffer) error) bool {
 		items = append(items, it)
-		if it.K == "rec" && len(fixes) < limit && write != nil {
-			buf := &bytes.Buffer{}
-			var werr error
-			wp, _ := catch(func() { werr = write(buf) })
-			reread(buf.Bytes(), it, werr != nil, wp)
+		if it.K == "rec" && write != nil {
+			nrec++
+			if nrec%2 == 0 && len(later) < limit {
+				later = append(later, held{it, write})
+			} else if len(fixes) < limit {
+				buf := &bytes.Buffer{}
+				var werr error
+				wp, _ := catch(func() { werr = write(buf) })
+				reread(buf.Bytes(), it, werr != nil, wp)
+			}
 		}
 		if len(items) >= itemCap {
 			capped = true
@@ -159,6 +170,12 @@ func decodeFix(fmtName string, data []byte, limit int) (items []gItem, capped, p
 			})
 		}
 	})
+	for _, h := range later {
+		buf := &bytes.Buffer{}
+		var werr error
+		wp, _ := catch(func() { werr = h.write(buf) })
+		reread(buf.Bytes(), h.it, werr != nil, wp)
+	}
 	return
 }
 
@@ -190,6 +207,8 @@ func totalInputs(fmtName string, salt int64, nNoise int) [][]byte {
 		out = append(out, d)
 	}
 	well := corpusFor(fmtName, salt+1, 12, 5)
+	// two inputs of many records (beyond 4 KiB and beyond 64 KiB of text): a reader refills its buffers while the consumer holds records
+	out = append(out, corpusFor(fmtName, salt+5, 1, 150)[0].Data, corpusFor(fmtName, salt+6, 1, 2500)[0].Data)
 	for i := 0; i < nNoise; i++ {
 		switch i % 4 {
 		case 0:
